@@ -122,8 +122,8 @@ class Findings:
             trig, neut = triggers[tname]
             try:
                 present = trig(cur)
-            except Exception:
-                present = False
+            except Exception as exc:   # a broken trigger must not silently turn a known finding into a violation (or hide one)
+                raise HarnessError("trigger %r of finding %s raised %r" % (tname, e["id"], exc))
             if not present:
                 continue
             ids.append(e["id"])
